@@ -331,7 +331,11 @@ Lemma parseStringUnquote_eq fuel d b r : json_decoder_parseStringUnquote fuel d 
     let s := slice s 1 (subi64 (len s) 1) in
     if k =? 9 then Some (s, B, false, None)
     else if nil_bytes r then uq_loop B fuel [] s else uq_loop B fuel r s.
-Proof. unfold json_decoder_parseStringUnquote. destruct (parse_string_tot d b) as [[[s B] k] err]. reflexivity. Qed.
+Proof.
+  unfold json_decoder_parseStringUnquote. destruct (parse_string_tot d b) as [[[s B] k] err].
+  (* the two sides are the same text when the translation is unchanged; bounded so that a changed source fails at once *)
+  Timeout 30 reflexivity.
+Qed.
 
 (* one iteration, at the first backslash *)
 Lemma uq_loop_plain B f r s : s <> [] -> forallb (fun c => negb (eqc 92 c)) s = true ->
